@@ -110,6 +110,12 @@ fn run_case(seed: u64, idx: u64) -> CaseOut {
         _ => Some(rng.range(1, 100_000)),
     };
     let (pb, spy) = new_bar(120, 60000, len0);
+    // a quarter of the bars start on a hidden target and are given the terminal somewhere along the
+    // history: what happened while nobody was looking is part of the state that must be shown
+    let starts_hidden = rng.chance(1, 4);
+    let reveal_at = rng.range(0, 26);
+    let pb = if starts_hidden { indicatif::ProgressBar::with_draw_target(len0, indicatif::ProgressDrawTarget::hidden()) } else { pb };
+    let mut revealed = !starts_hidden;
     let mut co = CaseOut::held(0, true);
     let mut history: Vec<String> = Vec::new();
     let res = catch_unwind(AssertUnwindSafe(|| -> Result<(), Verdict> {
@@ -119,7 +125,12 @@ fn run_case(seed: u64, idx: u64) -> CaseOut {
         let mut finished = false;
         let mut expected_resets = 0u64;
         let n = rng.range(1, 25);
-        for _ in 0..n {
+        for opi in 0..n {
+            if !revealed && opi == reveal_at {
+                pb.set_draw_target(indicatif::ProgressDrawTarget::term_like(spy.boxed()));
+                revealed = true;
+                history.push("set_draw_target(terminal)".into());
+            }
             // at least 1 ms between operations so that position updates are never throttled
             let adv = match rng.below(5) {
                 0 => 1_000_000,
@@ -226,6 +237,10 @@ fn run_case(seed: u64, idx: u64) -> CaseOut {
         }
         // ---- one draw, then read everything at the same frozen instant -------------------------------
         clock.fetch_add(rng.range(0, 30_000) * 1_000_000, Ordering::SeqCst);
+        if !revealed {
+            pb.set_draw_target(indicatif::ProgressDrawTarget::term_like(spy.boxed()));
+            history.push("set_draw_target(terminal)".into());
+        }
         spy.state().log = Some(Vec::new());
         pb.force_draw();
         let lines = last_frame_lines(&spy);
@@ -560,7 +575,7 @@ pub fn run(cfg: &RunCfg) -> PropResult {
     };
     PropResult {
         report,
-        rule: "each evaluation: a bar with every documented non-bar key (26) plus a custom key and an unknown key on separate template lines goes through 1-25 updates (inc/set_position incl. u64 extremes, set_length/unset_length, texts, ticks, reset, abandon; >= 1 ms of virtual time between operations, up to days) and is drawn once; each rendered line is compared with the corresponding getter read at the same frozen instant passed through the public formatter; custom tracker tick/reset/write calls are logged and compared with the bar; distinct = (initial length, history) hash; mid-draw lane: a custom key between 2-8 pos/len-family keys lets a helper thread run inc/dec/set_position while the frame is being rendered (the update is lock-free) and the frame must still describe one single position".into(),
+        rule: "each evaluation: a bar with every documented non-bar key (26) plus a custom key and an unknown key on separate template lines goes through 1-25 updates (inc/set_position incl. u64 extremes, set_length/unset_length, texts, ticks, reset, abandon; >= 1 ms of virtual time between operations, up to days) (a quarter of the bars start on a hidden target and receive the terminal through set_draw_target somewhere along the history) and is drawn once; each rendered line is compared with the corresponding getter read at the same frozen instant passed through the public formatter; custom tracker tick/reset/write calls are logged and compared with the bar; distinct = (initial length, history) hash; mid-draw lane: a custom key between 2-8 pos/len-family keys lets a helper thread run inc/dec/set_position while the frame is being rendered (the update is lock-free) and the frame must still describe one single position".into(),
         exhaustive: false,
     }
 }
